@@ -134,6 +134,17 @@ theorem cmdline_transparent (as : List Bytes) (hne : as ≠ []) (hc : ∀ a ∈ 
     simp only [h1', Bool.false_eq_true, if_false, Bool.false_and, List.append_nil, hp]
     exact handleFrom_repack env _ as
 
+/-- **sets exactly its own, through the command line**: feature `i` of the accepted configuration holds the last
+setting the written list (plus the appended `template=slim`, which sets no feature) gives for it, else its default;
+the single cross effect is the slim rule. -/
+theorem cmdline_sets_exactly_own (as : List Bytes) (hne : as ≠ []) (hc : ∀ a ∈ as, (44 : Nat) ∉ a)
+    (c : Cfg) (h : cmdline env cmdEnv (joinComma as) = some c) (i : Nat) (hi : i < env.defaults.length) :
+    feat c i =
+      if c.template = env.slimName ∧ i = env.iDeepEqual then false
+      else (lastSetting env i (as ++ appended as)).getD (env.defaults.getD i false) := by
+  rw [cmdline_transparent as hne hc] at h
+  exact handleFrom_feat env _ rfl _ c h i hi
+
 /-- nothing is appended unless the list itself switches nested structs on (`enable_nested_struct=false` included) -/
 theorem cmdline_adds_nothing_unless_nested (as : List Bytes) (h : feat (probe env as) cmdEnv.iNested = false) :
     appended as = [] := by simp [appended, h]
